@@ -158,7 +158,7 @@ class C12(Prop):
   props_modules = ['PgProps.C12']
   driver = 'drv_c12'
   translators = []
-  case_timeout_s = 60
+  case_timeout_s = 240
   jobs_quick = 8
   rule = ('specs as in C11 (random trees incl. float points, depth<=3, size bound<=300) decorated with '
           'locations (1-2 keys, str and int), names (35 %) and literal values (str / int / mixed, 60 %); '
@@ -232,7 +232,7 @@ class C12(Prop):
     return {'op': 'views', 'spec': spec, 'dnas': uniq, 'chains': chains}
 
   def generate(self, rng, tier):
-    n = 110 if tier == 'quick' else 4000
+    n = 110 if tier == 'quick' else 1500
     for i in range(n):
       allow_inf = (i % 4 == 3)
       spec = None
@@ -295,9 +295,15 @@ class C12(Prop):
         canon_dict(d.to_dict(key_type='id', value_type=vt, multi_choice_key=mk))
         for vt in ('value', 'choice') for mk in MULTI)
     # lookups: by id / by decision point / by name against a DNA rebuilt from the raw numbers
-    rebuilt = geno.DNA.from_numbers(flat, spec)
     look = []
-    for dp in spec.decision_points:
+    try:
+      rebuilt = geno.DNA.from_numbers(flat, spec)
+    except CaseTimeout:
+      raise
+    except Exception as e:   # pylint: disable=broad-except
+      rebuilt = None
+      look.append(['from_numbers(to_numbers(d))', 'error:' + type(e).__name__, ''])
+    for dp in (spec.decision_points if rebuilt is not None else []):
       for key in (dp, str(dp.id)) + ((dp.name,) if dp.name else ()):
         def get(x):
           try:
@@ -316,7 +322,12 @@ class C12(Prop):
     o = {'norm': H.tree_of(d), 'beliefs': beliefs(d),
          'dict': canon_dict(d.to_dict()),
          'dict2': canon_dict(d.to_dict(key_type='name_or_id', value_type='choice_and_literal', multi_choice_key='both'))}
-    rebuilt = geno.DNA.from_numbers(d.to_numbers(), spec)
+    try:
+      rebuilt = geno.DNA.from_numbers(d.to_numbers(), spec)
+    except CaseTimeout:
+      raise
+    except Exception:   # pylint: disable=broad-except
+      return o, {'same_as_rebuilt': False}
     ob = {'same_as_rebuilt': (beliefs(rebuilt) == o['beliefs'] and canon_dict(rebuilt.to_dict()) == o['dict']
                               and canon_dict(rebuilt.to_dict(key_type='name_or_id', value_type='choice_and_literal',
                                                              multi_choice_key='both')) == o['dict2'])}
@@ -452,9 +463,13 @@ class C12(Prop):
     return None
 
   def nontrivial(self, case, out):
+    if 'model' not in out:
+      return False
     return any(len(list(G.nodes(t))) >= 2 for t in case['dnas'])
 
   def describe(self, case, out):
+    if 'model' not in out:
+      return ['timeout']
     spec = case['spec']
     h = ['finite' if G.is_finite(spec) else 'non-finite', 'depth:%d' % G.depth(spec)]
     for p in G.points(spec):
